@@ -44,6 +44,12 @@ def run_property(pid: str, tier: str, seed: int) -> int:
                      if not any(n.startswith(pfx) for pfx in left) and ".call[" not in n)
     if left:
         rep.extra["functions_outside_the_supported_subset"] = [p.rstrip(".") for p in left]
+        # on the very tree the baseline was taken from, a function that was inside the subset then and is
+        # outside now means the *engine* regressed: a checker error, not a silent fall-back to the stand-in
+        was_in = [p for p in left if any(n.startswith(p) for n in base_names)]
+        if was_in and load_baseline().get("_source") == core.source_digest() and os.environ.get("VERIF_NO_BASELINE") != "1":
+            raise CheckerError(f"the library is unchanged but {was_in[0].rstrip('.')} left the supported subset "
+                               f"(engine regression): {[o.detail for o in rep.obligations if o.name.endswith('.in_subset')][:1]}")
     if missing and tier in baseline.get("tiers", ["quick", "thorough"]):
         raise CheckerError(f"{len(missing)} baseline obligation(s) were not generated, e.g. {missing[:3]}")
     for b in rep.bounded:
